@@ -153,3 +153,4 @@ func vParam(name string, def int) int {
 	}
 	return def
 }
+func vFixMapOrderType(t string) {}
